@@ -245,3 +245,70 @@ def pipe_suite(chk, quick=True):
             chk.violation('terminates', c, {'watchdog': rc, 'stacks': (err or '')[-1500:]}, 'the call returns or raises within bounded time', input_class='pipe_hang_' + case)
         elif d is not None and not d.get('ok'):
             chk.violation('terminates', c, d, 'the call ends with the right outcome', input_class='pipe_wrong_' + case)
+
+
+GROUP_SIGINT_DRIVER = r'''
+import os, sys, json, signal, threading, time, faulthandler
+sys.path.insert(0, %(root)r)
+from mpire import WorkerPool
+def sq(x):
+    time.sleep(0.05)
+    return x * x
+def pester(stop):
+    t_end = time.time() + 1.5
+    while time.time() < t_end and not stop.is_set():
+        os.killpg(os.getpgrp(), signal.SIGINT)       # what a terminal does on Ctrl-C: every process of the group gets it
+        time.sleep(0.03)
+def main():
+    sm = sys.argv[1]
+    faulthandler.dump_traceback_later(40, exit=True)
+    signal.signal(signal.SIGINT, signal.SIG_IGN)      # the caller ignores SIGINT (a background job, nohup)
+    stop = threading.Event()
+    out = {}
+    t = threading.Thread(target=pester, args=(stop,), daemon=True)
+    try:
+        with WorkerPool(2, start_method=sm) as pool:
+            t.start()
+            r = pool.map(sq, range(8), chunk_size=1)
+            out['ok'] = r == [x * x for x in range(8)]
+    except BaseException as e:
+        out['ok'] = False
+        out['error'] = type(e).__name__ + ': ' + str(e)[:100]
+    stop.set()
+    out['handler_unchanged'] = signal.getsignal(signal.SIGINT) == signal.SIG_IGN
+    print(json.dumps(out))
+if __name__ == '__main__':
+    main()
+'''
+
+
+def group_sigint_suite(chk, quick=True):
+    """the caller ignores SIGINT and Ctrl-C goes to the whole process group again and again while the workers are being started and
+    work: nobody is affected — the call completes with correct results.  (Worker processes started with spawn / forkserver get
+    their SIGINT disposition through exec, which DetSim does not model.)"""
+    code = GROUP_SIGINT_DRIVER % {'root': ROOT}
+    jobs = ['spawn', 'forkserver'] if quick else ['spawn', 'forkserver', 'fork', 'spawn', 'forkserver']
+    from concurrent.futures import ThreadPoolExecutor
+    with ThreadPoolExecutor(3) as ex:
+        results = list(ex.map(lambda sm: run_driver(code, [sm], timeout=80), jobs))
+
+    def bad(r):
+        try:
+            d = json.loads(r[1].strip().splitlines()[-1])
+            return not (d.get('ok') and d.get('handler_unchanged'))
+        except Exception:
+            return True
+    results = [r if not bad(r) else run_driver(code, [sm], timeout=80) for sm, r in zip(jobs, results)]
+    suite = 'real processes: Ctrl-C to the whole group while the caller ignores SIGINT'
+    for sm, (rc, out, err) in zip(jobs, results):
+        c = {'start_method': sm, 'caller': 'SIG_IGN', 'signal': 'SIGINT to the process group every 30 ms for 1.5 s'}
+        try:
+            d = json.loads(out.strip().splitlines()[-1])
+        except Exception:
+            d = None
+        chk.count(suite, key=sm, nontrivial=True, sample=dict(c, result=d, rc=rc), start=sm)
+        if d is None:
+            chk.violation('no_hang', c, {'watchdog': rc, 'stacks': (err or '')[-1200:]}, 'an ignored interrupt has no effect: the call completes', input_class='group_sigint_hang_' + sm)
+        elif not d.get('ok') or not d.get('handler_unchanged'):
+            chk.violation('ignored_interrupt_completes', c, d, 'an ignored interrupt has no effect: the call completes with correct results and the disposition is unchanged',
+                          input_class='group_sigint_' + sm)
